@@ -101,9 +101,14 @@ impl TcpStream {
         // The socket is registered (and its port taken) before the handshake
         // completes. Release it again if the connect is refused or this
         // future is dropped (e.g. a timeout) while waiting.
-        let mut guard = ConnectGuard { pair: Some(pair) };
+        let mut guard = ConnectGuard {
+            pair: Some(pair),
+            refused: false,
+        };
 
         syn_ack.await.map_err(|_| {
+            // The peer dropped the SYN: it holds no state for this connection.
+            guard.refused = true;
             io::Error::new(io::ErrorKind::ConnectionRefused, pair.remote.to_string())
         })?;
 
@@ -207,12 +212,31 @@ impl TcpStream {
 /// Removes the client socket of a connect that did not complete.
 struct ConnectGuard {
     pair: Option<SocketPair>,
+    /// The peer refused the connection, there is nothing to tear down there.
+    refused: bool,
 }
 
 impl Drop for ConnectGuard {
     fn drop(&mut self) {
         if let Some(pair) = self.pair {
-            World::current_if_set(|world| world.current_host_mut().tcp.reset_stream(pair));
+            let refused = self.refused;
+            World::current_if_set(|world| {
+                world.current_host_mut().tcp.reset_stream(pair);
+
+                if refused {
+                    return;
+                }
+
+                // The connect is abandoned while it is pending. The peer may
+                // have accepted it already (accept answers the SYN at once):
+                // reset it rather than leaving it with a stream to nowhere.
+                let message = Protocol::Tcp(Segment::Rst);
+                if is_same(pair.local, pair.remote) {
+                    send_loopback(pair.local, pair.remote, message);
+                } else {
+                    let _ = world.send_message(pair.local, pair.remote, message);
+                }
+            });
         }
     }
 }
